@@ -34,11 +34,11 @@ def run(ctx):
                     {"events": [json.loads(l) for l in x["lines"]], "failing_event": x["event"]})
     # 6. schedules: concurrent producers against the agent's check-ins on the real queue (JobQueueConc.tla)
     core.design_check(ctx, "JobQueueConc.tla", "JobQueueConc.cfg", timeout=900)
-    runs = [[{"op": "Run", "producers": p, "per": (1500 if quick else 6000)}] for p in ([2, 4, 8, 8] if quick else [2, 3, 4, 6, 8, 8, 12, 16] * 2)]
+    runs = [[{"op": "Run", "producers": p, "per": (1500 if quick else 3000)}] for p in ([2, 4, 8, 8] if quick else [2, 3, 4, 6, 8, 8, 12, 16] * 2)]
     ctrace, csumm = core.run_harness(ctx, hb, "jobconc", runs, "jobconc", shards=min(4, len(runs)), timeout=1500)
     for inc in csumm["incidents"]:
         core.report(ctx, {"check": "replay-concurrent", "kind": inc["kind"], "site": inc["site"]}, inc)
-    cv = core.validate_traces(ctx, "Trace_JobQueueConc.tla", "Trace_JobQueueConc_strict.cfg", "Trace_JobQueueConc_mon.cfg", ctrace, "jobconc", timeout=1500, max_viol=4)
+    cv = core.validate_traces(ctx, "Trace_JobQueueConc.tla", "Trace_JobQueueConc_strict.cfg", "Trace_JobQueueConc_mon.cfg", ctrace, "jobconc", timeout=3000, max_viol=4)
     for x in cv["violations"]:
         if x["invariant"] == "MonNoCrash":
             continue
